@@ -1,0 +1,16 @@
+//go:build verif
+
+// Contracts for the deductive verification in /verif (comment-only; compiled code is unaffected).
+package interceptors
+
+// the TLS connection state gRPC attached to the request context
+//@ spec tlsStateOf(ctx any) tls.ConnectionState = unbox(peerOf(ctx).AuthInfo, "credentials.TLSInfo").State
+//@ spec hasVerifiedCert(ctx any) bool = tlsStateOf(ctx).HandshakeComplete && len(tlsStateOf(ctx).PeerCertificates) > 0
+
+// the next handler is called with the common name of the first verified peer certificate as client name (C19)
+//@ func ClientInfoInterceptor$1.handler(hctx, hreq)
+//@ requires [named] hasVerifiedCert(ctx) ==> hastype(ctxval(hctx, tagof("*ClientName")), "string") && unbox(ctxval(hctx, tagof("*ClientName")), "string") == tlsStateOf(ctx).PeerCertificates[0].Subject.CommonName
+//@ requires [unnamed] !hasVerifiedCert(ctx) ==> ctxval(hctx, tagof("*ClientName")) == ctxval(ctx, tagof("*ClientName"))
+//@ requires [samereq] hreq == req
+
+//@ func ClientInfoInterceptor$1
